@@ -139,6 +139,13 @@ def run(tier):
         res = progs.run_programs(check, wp, family, behs, table, core.seed(), ["none"], progs.VERS[family][:1])
         classify(check, res, table)
         check.cov["exhaustive_expressions_%s" % family] = len(behs)
+        # the same for constant expressions (PHP 5 has a grammar of its own for them: static_operation)
+        byid = {v["id"]: v for v in table["variants"]}
+        cexpr = sorted(i for i, v in byid.items() if i.startswith("static/")) + ["ScalarLnumber", "StmtStatic", "StmtStaticVar/init", "Name", "NamePart"]
+        table, behs = syntax.generate(check, family, rootcat="stmt", rootmax=1, depth=4, allowed=cexpr, exhaustive=True, maxchoices=9, timeout=3000)
+        res = progs.run_programs(check, wp, family, behs, table, core.seed(), ["none"], progs.VERS[family][:1])
+        classify(check, res, table)
+        check.cov["exhaustive_constant_expressions_%s" % family] = len(behs)
     check.cov["variants_never_generated"] = uncovered
     # version gating: PHP 7-only syntax must be reported under 5.x
     table, behs = syntax.generate(check, "7", num=n, seed=core.seed() + 7, depth=3)
